@@ -52,14 +52,22 @@ Outcome(row, m) == IF row.guard THEN "refuse"
                    ELSE IF row.bound THEN "reject"
                    ELSE "accept"
 
-\* effective configuration parameters (changed in every copy the description stores) and the guard that notices
+\* Configuration changes and the guard that notices.  The description stores the FRI configuration twice (config.fri_config and
+\* fri_params.config, plonky2 clones one into the other); `copy` says which stored copy changes.  What the code reads, by parameter:
+\* the number of query rounds from BOTH copies (the index count from config.fri_config, the round count from fri_params.config, and
+\* the two are compared with the proof), cap height and rate bits from fri_params.config only - config.fri_config.cap_height and
+\* config.fri_config.rate_bits are never read, so changing only that copy changes nothing the verifier does and is not a case.
 ConfigChanges == {
-  [name |-> "num_query_rounds", outcome |-> "refuse"],   \* NumQueryRounds != len(QueryRoundProofs)
-  [name |-> "cap_height",       outcome |-> "refuse"],   \* validateFriProofShape / len(merkleCap) != 16
-  [name |-> "reduction_arity_bits", outcome |-> "refuse"], \* len(steps) / len(evals) / arity != 4
-  [name |-> "fri_degree_bits",  outcome |-> "refuse"],   \* Merkle path length vs lde_bits
-  [name |-> "degree_bits",      outcome |-> "reject"],   \* zeta^n, the subgroup generator: the PLONK identity fails
-  [name |-> "rate_bits",        outcome |-> "refuse"] }  \* lde_bits
+  [name |-> "num_query_rounds", copy |-> "both",   outcome |-> "refuse"],   \* NumQueryRounds != len(QueryRoundProofs)
+  [name |-> "num_query_rounds", copy |-> "config", outcome |-> "refuse"],   \* number of query indices != number of round proofs
+  [name |-> "num_query_rounds", copy |-> "params", outcome |-> "refuse"],
+  [name |-> "cap_height",       copy |-> "both",   outcome |-> "refuse"],   \* validateFriProofShape / len(merkleCap) != 16
+  [name |-> "cap_height",       copy |-> "params", outcome |-> "refuse"],
+  [name |-> "reduction_arity_bits", copy |-> "both", outcome |-> "refuse"], \* len(steps) / len(evals) / arity != 4
+  [name |-> "fri_degree_bits",  copy |-> "both",   outcome |-> "refuse"],   \* Merkle path length vs lde_bits
+  [name |-> "degree_bits",      copy |-> "both",   outcome |-> "reject"],   \* zeta^n, the subgroup generator: the PLONK identity fails
+  [name |-> "rate_bits",        copy |-> "both",   outcome |-> "refuse"],   \* lde_bits
+  [name |-> "rate_bits",        copy |-> "params", outcome |-> "refuse"] }
 
 NeverAccept == /\ \A row \in Lists : \A m \in Mutations : Outcome(row, m) # "accept"
                /\ \A c \in ConfigChanges : c.outcome # "accept"
